@@ -2,6 +2,7 @@
 and fairness.  Reference = nondeterministic round-robin automata (forked on same-instant
 visibility and on the pointer position after an idle period)."""
 from harness import sched as S
+from mc import explore
 
 PROPERTY = "C15"
 CLAUSES = ["C15.noraise", "C15.once", "C15.time", "C15.fifo", "C15.cycle", "C15.credit", "C15.fair"]
@@ -45,8 +46,10 @@ def plan(tier, seed):
     for tab in ([[0, 1], [1, 1]], [[0, 2], [1, 1]], [[0, 1], [1, 3]], [[1, 2], [0, 1]]):
         cfgs.append(dict(sched="WRR", table=tab, rate=8, flows=[0, 1], sizes=[1, 2], N=n + 1, gaps="G5", order=0))
         cfgs.append(dict(sched="WRR", table=tab, rate=8, flows=[0, 1], sizes=[1], N=7 if quick else 9, gaps=["S", 1], order=1))
+    # every configuration once more with long fixed workloads (state that only breaks after hundreds of packets)
+    nlong = explore.add_long(cfgs, 60 if quick else 120)
     return {"cfgs": cfgs, "budget": None,
-            "bound": "DRR: N<=%d full menu (31/packet), N<=%d reduced, static backlogs of %d; RR/WRR: N<=%d full menu, bursts to %d" % (n, n + 1, 6 if quick else 8, n + 1, 7 if quick else 9)}
+            "bound": ("%d long fixed workloads (periodic arrival patterns); " % nlong) + ("DRR: N<=%d full menu (31/packet), N<=%d reduced, static backlogs of %d; RR/WRR: N<=%d full menu, bursts to %d" % (n, n + 1, 6 if quick else 8, n + 1, 7 if quick else 9))}
 
 
 def execute(ch, cfg):
